@@ -9,7 +9,11 @@
 // The handler reads a generated subset of the channels (the others stay full), and after the drain one more send per channel
 // must each be followed by a handler entry (and a host callback where the DSP echoes): "every send with interrupts enabled is
 // followed by at least one interrupt delivery", also into a mailbox that is still full.
+#include <unistd.h>
+
+#include <algorithm>
 #include <atomic>
+#include <chrono>
 #include <map>
 #include <mutex>
 #include <thread>
@@ -21,8 +25,8 @@
 
 namespace {
 
-enum Kind : int { Send, Recv, Ready, Empty, Peek, SemSet, SemClear, SemMask, SemGet, NKIND };
-const char* kKindName[] = {"send", "recv", "ready", "empty", "peek", "semset", "semclear", "semmask", "semget"};
+enum Kind : int { Send, Recv, Ready, Empty, Peek, SemSet, SemClear, SemMask, SemGet, Sync, NKIND };
+const char* kKindName[] = {"send", "recv", "ready", "empty", "peek", "semset", "semclear", "semmask", "semget", "sync"};
 struct Op {
     int kind = Send;
     unsigned ch = 0;
@@ -34,6 +38,8 @@ struct Case {
     std::vector<unsigned> slices;
     unsigned reenter = 0; // bit0: data handlers call RecvData, bit1: semaphore handler calls GetSemaphore, bit2: data handler sends
     unsigned readmask = 7; // channels whose CMDi the DSP handler reads and echoes; the others stay full after their first send
+    unsigned polls = 0;    // bit0: the DSP handler reads CMDi only when the status register shows it ready; bit1: the host reads only
+                           // after RecvDataIsReady (and its callbacks do not read)
 };
 
 uint16_t W(const std::string& form, const std::vector<long>& v) {
@@ -44,7 +50,7 @@ uint16_t W(const std::string& form, const std::vector<long>& v) {
 }
 
 std::string encode(const Case& c) {
-    std::string s = "reenter " + vf::hex(c.reenter) + "\nreadmask " + vf::hex(c.readmask) + "\nslices";
+    std::string s = "reenter " + vf::hex(c.reenter) + "\nreadmask " + vf::hex(c.readmask) + "\npolls " + vf::hex(c.polls) + "\nslices";
     for (auto x : c.slices)
         s += " " + vf::hex(x);
     s += "\n";
@@ -62,6 +68,8 @@ Case decode(const std::string& text) {
             c.reenter = (unsigned)vf::unhex(t[1]);
         else if (t[0] == "readmask" && t.size() >= 2)
             c.readmask = (unsigned)vf::unhex(t[1]) & 7;
+        else if (t[0] == "polls" && t.size() >= 2)
+            c.polls = (unsigned)vf::unhex(t[1]) & 3;
         else if (t[0] == "slices")
             for (size_t i = 1; i < t.size(); ++i)
                 c.slices.push_back((unsigned)vf::unhex(t[i]));
@@ -81,7 +89,7 @@ Case decode(const std::string& text) {
 
 const uint16_t kCounter = 0x2000, kLastCmd = 0x2100;
 
-void load_program(Teakra::Teakra& t, unsigned readmask) {
+void load_program(Teakra::Teakra& t, unsigned readmask, bool dsp_polls) {
     std::vector<uint16_t> main = {W("eint()", {}), W("brr(RelAddr7,CondValue)", {0x7F, 0})};
     for (size_t i = 0; i < main.size(); ++i)
         t.ProgramWrite(0x0100 + (uint32_t)i, main[i]);
@@ -104,9 +112,20 @@ void load_program(Teakra::Teakra& t, unsigned readmask) {
     for (uint16_t i = 0; i < 3; ++i) {
         if (!((readmask >> i) & 1))
             continue; // this channel is never read: its mailbox stays full, later sends must still interrupt
+        size_t patch = 0;
+        if (dsp_polls) { // a polling receiver: look at the data-ready bit of the status register first
+            load(0x80D8);
+            h.push_back(W("alu(AlmOp#8,Imm16,Ax)", {1, -1, 0})); // and #(1 << (13 + i)), a0
+            h.push_back((uint16_t)(1u << (13 + i)));
+            h.push_back(W("br(Address18_16,Address18_2,CondValue)", {-1, 0, 1})); // br eq, skip
+            patch = h.size();
+            h.push_back(0);
+        }
         load(0x80C2 + 4 * i); // CMDi (clears the ready flag)
         store(kLastCmd + i);
         store(0x80C0 + 4 * i); // REPLYi
+        if (dsp_polls)
+            h[patch] = (uint16_t)(0x0400 + h.size());
     }
     load(0x80D2); // semaphore from the host ...
     store(0x80CC); // ... echoed to the host
@@ -124,11 +143,47 @@ void load_program(Teakra::Teakra& t, unsigned readmask) {
         t.ProgramWrite(0x0400 + (uint32_t)i, h[i]);
 }
 
+// Deadlock watchdog. A case normally takes a fraction of a second; one that has not finished after kWatchdogSeconds is stuck
+// (the host thread's operations never block by contract, the DSP thread only waits for the host thread). The process saves the
+// schedule and exits with code 78; the driver replays the schedule three times in fresh processes and reports a violation
+// only if every replay hangs as well.
+std::atomic<int64_t> g_case_started_ms{0}; // 0 = no case running
+int64_t now_ms() {
+    return std::chrono::duration_cast<std::chrono::milliseconds>(std::chrono::steady_clock::now().time_since_epoch()).count();
+}
+void start_watchdog() {
+    static bool started = false;
+    if (started)
+        return;
+    started = true;
+    int limit = 60;
+    if (const char* e = std::getenv("VERIF_C19_WATCHDOG"))
+        limit = std::max(2, std::atoi(e));
+    std::thread([limit] {
+        for (;;) {
+            std::this_thread::sleep_for(std::chrono::milliseconds(500));
+            int64_t st = g_case_started_ms.load();
+            if (st && now_ms() - st > (int64_t)limit * 1000) {
+                std::fprintf(stderr, "VERIF-HANG: the schedule did not finish within %d s (deadlock between the API calls / callbacks?)\n", limit);
+                vf::death_callback();
+                _exit(78);
+            }
+        }
+    }).detach();
+}
+struct CaseTimer {
+    CaseTimer() { g_case_started_ms = now_ms(); }
+    ~CaseTimer() { g_case_started_ms = 0; }
+};
+
 vf::Result check(const Case& c) {
+    start_watchdog();
+    CaseTimer case_timer;
     static Teakra::Teakra* instance = new Teakra::Teakra(Teakra::UserConfig{}); // construction is slow under TSan: one per process
     Teakra::Teakra& t = *instance;
     t.Reset();
-    load_program(t, c.readmask);
+    load_program(t, c.readmask, c.polls & 1);
+    const bool host_polls = (c.polls & 2) != 0;
     t.MMIOWrite(0x206, 0x4000); // IRQ 14 (APBP) -> int0
     auto& regs = t.GetRegisterState();
     regs.pc = 0x0100;
@@ -138,15 +193,17 @@ vf::Result check(const Case& c) {
 
     // what the host observes (host thread + callbacks on the DSP thread)
     std::array<std::vector<uint16_t>, 3> received, received_cb; // read by the host thread / by callbacks on the DSP thread
+    std::array<std::vector<uint16_t>, 3> taken;                   // values returned by RecvData (either thread), i.e. really consumed
     std::mutex rec_mutex;
     std::atomic<unsigned> data_cb{0}, sem_cb{0};
     for (int i = 0; i < 3; ++i)
         t.SetRecvDataHandler(i, [&, i] {
             ++data_cb;
-            if (c.reenter & 1) {
+            if ((c.reenter & 1) && !host_polls) {
                 uint16_t v = t.RecvData(i);
                 std::lock_guard<std::mutex> l(rec_mutex);
                 received_cb[i].push_back(v);
+                taken[i].push_back(v);
             }
             if ((c.reenter & 4) && (data_cb % 64) == 7)
                 t.SendData(i, 0); // a callback that sends (value 0 = "no sequence number")
@@ -158,17 +215,18 @@ vf::Result check(const Case& c) {
     });
 
     std::atomic<bool> host_done{false};
-    std::atomic<uint64_t> dsp_progress{0}, host_progress{0};
+    std::atomic<uint64_t> dsp_progress{0}, host_progress{0}, dsp_cycles{0};
     unsigned seq[3] = {0, 0, 0};
     unsigned last_sent[3] = {0, 0, 0};
-    unsigned overlap = 0;
-    std::string logic_error;
+    unsigned overlap = 0, syncs = 0;
+    std::string logic_error, logic_sig;
 
     std::thread dsp([&] {
         size_t k = 0;
         while (!host_done.load()) {
             unsigned n = c.slices.empty() ? 64 : c.slices[k++ % c.slices.size()];
             t.Run(n ? n : 1);
+            dsp_cycles += n ? n : 1;
             ++dsp_progress;
         }
     });
@@ -181,9 +239,12 @@ vf::Result check(const Case& c) {
                 t.SendData((uint8_t)op.ch, (uint16_t)last_sent[op.ch]);
                 break;
             case Recv: {
+                if (host_polls && !t.RecvDataIsReady((uint8_t)op.ch))
+                    break; // a polling receiver reads only what is flagged ready
                 uint16_t v = t.RecvData((uint8_t)op.ch);
                 std::lock_guard<std::mutex> l(rec_mutex);
                 received[op.ch].push_back(v);
+                taken[op.ch].push_back(v);
                 break;
             }
             case Ready:
@@ -210,6 +271,40 @@ vf::Result check(const Case& c) {
             case SemGet:
                 (void)t.GetSemaphore();
                 break;
+            case Sync: {
+                // quiescent point: the host stops sending until the DSP has run >= 4000 further cycles (an interrupt is taken within
+                // a handler's length, ~60 instructions), then the last value of every echoed channel must have made the round trip
+                // -- "the last value sent is always eventually observed", for the last value of *every* burst, through thread-safe
+                // calls only
+                uint64_t c0 = dsp_cycles.load();
+                while (dsp_cycles.load() < c0 + 4000)
+                    std::this_thread::yield();
+                ++syncs;
+                for (unsigned i = 0; i < 3 && logic_error.empty(); ++i) {
+                    if (!seq[i] || !((c.readmask >> i) & 1))
+                        continue;
+                    unsigned echoed = t.PeekRecvData((uint8_t)i);
+                    bool callback_sent = (c.reenter & 4) != 0;
+                    if (echoed != last_sent[i] && !(callback_sent && echoed == 0)) {
+                        logic_sig = "C19:lost:last-value:sync";
+                        logic_error = "channel " + std::to_string(i) + ": 4000 DSP cycles after the last send of a burst the reply is " + vf::hex(echoed) +
+                                      " but the last value sent is " + vf::hex(last_sent[i]) + " (host op " + std::to_string(host_progress.load()) + ")";
+                        break;
+                    }
+                    bool consumed;
+                    {
+                        std::lock_guard<std::mutex> l(rec_mutex);
+                        consumed = std::find(taken[i].begin(), taken[i].end(), (uint16_t)echoed) != taken[i].end();
+                    }
+                    if (!consumed && !t.RecvDataIsReady((uint8_t)i)) {
+                        logic_sig = "C19:lost:last-value:host-ready";
+                        logic_error = "channel " + std::to_string(i) + ": the last reply " + vf::hex(echoed) +
+                                      " was never returned by RecvData and is not flagged ready at a quiescent point (host op " +
+                                      std::to_string(host_progress.load()) + ")";
+                    }
+                }
+                break;
+            }
             }
             ++host_progress;
             if (op.pause == 1)
@@ -226,6 +321,8 @@ vf::Result check(const Case& c) {
     }
     host_done = true;
     dsp.join();
+    if (!logic_error.empty())
+        return vf::Result::fail(logic_sig, logic_error + " (" + std::to_string(c.ops.size()) + " host ops)");
     // ---- bounded, single-threaded drain: "eventually" made finite --------------------------------------------------
     for (int k = 0; k < 64; ++k)
         t.Run(256);
@@ -245,6 +342,11 @@ vf::Result check(const Case& c) {
         if (echoed != last_sent[i] && !(callback_sent && echoed == 0))
             return vf::Result::fail("C19:lost:last-value:host", "channel " + std::to_string(i) + ": the last reply is " + vf::hex(echoed) + " but the last value sent is " +
                                                                     vf::hex(last_sent[i]) + " (" + what + ")");
+        // the last reply is eventually observed by a receiver that polls the ready flag: it was consumed by some RecvData, or it
+        // is still flagged ready
+        if (std::find(taken[i].begin(), taken[i].end(), (uint16_t)echoed) == taken[i].end() && !t.RecvDataIsReady((uint8_t)i))
+            return vf::Result::fail("C19:lost:last-value:host-ready", "channel " + std::to_string(i) + ": the last reply " + vf::hex(echoed) +
+                                                                          " was never returned by RecvData and is not flagged ready: a polling host never sees it (" + what + ")");
         // no invention, no reordering: every value the host read is 0 (nothing yet / callback send) or a sent sequence number,
         // and sequence numbers never go backwards
         for (const auto* list : {&received[i], &received_cb[i]}) { // order is meaningful per reading thread only
@@ -302,6 +404,12 @@ vf::Result check(const Case& c) {
     vf::klass(overlap >= 10 ? "schedule with real overlap (>= 10 observed DSP progress changes)" : "schedule with little overlap");
     if (c.reenter)
         vf::klass("re-entrant host callbacks");
+    if (syncs)
+        vf::klass("quiescent points checked (bursts whose last value must arrive)", syncs);
+    if (c.polls & 1)
+        vf::klass("DSP handler polls the ready bits before reading");
+    if (c.polls & 2)
+        vf::klass("host reads only after RecvDataIsReady");
     vf::note(vf::hash_str(encode(c)), overlap >= 3 && sends >= 1);
     if (overlap >= 10 && vf::ctx().samples.size() < 5)
         vf::sample(what + "; slices " + std::to_string(c.slices.size()));
@@ -310,7 +418,7 @@ vf::Result check(const Case& c) {
 
 rc::Gen<Op> genOp() {
     using namespace rc;
-    return gen::map(gen::tuple(gen::weightedElement<int>({{8, Send}, {3, Recv}, {1, Ready}, {1, Empty}, {2, Peek}, {2, SemSet}, {1, SemClear}, {1, SemMask}, {1, SemGet}}),
+    return gen::map(gen::tuple(gen::weightedElement<int>({{8, Send}, {3, Recv}, {1, Ready}, {1, Empty}, {2, Peek}, {2, SemSet}, {1, SemClear}, {1, SemMask}, {1, SemGet}, {2, Sync}}),
                                vf::range<unsigned>(0, 3), gen::element<unsigned>(1, 2, 0x8000, 0xFFFF, 0x00F0),
                                gen::weightedOneOf<unsigned>({{3, gen::just(0u)}, {2, gen::just(1u)}, {3, vf::range<unsigned>(2, 2000)}})),
                     [](std::tuple<int, unsigned, unsigned, unsigned> t) {
@@ -332,8 +440,9 @@ int main(int argc, char** argv) {
     p.gen = [] {
         using namespace rc;
         return gen::map(gen::tuple(gen::container<std::vector<Op>>(genOp()), gen::container<std::vector<unsigned>>(gen::element<unsigned>(1, 1, 2, 3, 7, 16, 64, 200, 1000)),
-                                   vf::range<unsigned>(0, 8), gen::weightedOneOf<unsigned>({{1, gen::just(7u)}, {1, vf::range<unsigned>(0, 8)}})),
-                        [](std::tuple<std::vector<Op>, std::vector<unsigned>, unsigned, unsigned> t) {
+                                   vf::range<unsigned>(0, 8), gen::weightedOneOf<unsigned>({{1, gen::just(7u)}, {1, vf::range<unsigned>(0, 8)}}),
+                                   vf::range<unsigned>(0, 4)),
+                        [](std::tuple<std::vector<Op>, std::vector<unsigned>, unsigned, unsigned, unsigned> t) {
                             Case c;
                             c.ops = std::get<0>(t);
                             // long schedules: repeat the generated list so that both threads really overlap
@@ -345,6 +454,7 @@ int main(int argc, char** argv) {
                             c.slices = std::get<1>(t);
                             c.reenter = std::get<2>(t);
                             c.readmask = std::get<3>(t) & 7;
+                            c.polls = std::get<4>(t) & 3;
                             return c;
                         });
     };
@@ -352,6 +462,11 @@ int main(int argc, char** argv) {
     p.encode = encode;
     p.decode = decode;
     p.max_size = 60;
+    // The outcome of a schedule depends on how the OS interleaves the two threads, the oracle does not: a lost or invented value
+    // is wrong whenever it shows. A failure therefore counts once the same schedule fails again within 40 further runs (and the failing schedule is kept as generated, not shrunk).
+    p.confirm_runs = 40;
+    p.confirm_min = 1;
+    p.no_shrink = true;
     vf::run(p);
     return vf::finish();
 }
